@@ -185,9 +185,9 @@ TagService(lx0, svc, rawpath, segs, data, cap, choice, embedded) ==
                       expected == IF xi = {} THEN 0 ELSE lx2.xfer[CHOOSE i \in xi : TRUE].next
                       lx3 == LogSvc(lx2, r, svc, IF more THEN 6 ELSE 0, <<>>)
                   IN
-                  IF svc = 76 /\ more THEN SvcR("C04:reply-too-large", <<>>, lx3)
+                  IF svc = 76 /\ more THEN SvcR("C04:reply-too-large+C01:falsy-for-existing", <<>>, lx3)
                   ELSE IF svc = 82 /\ xi = {} /\ start # 0 THEN SvcR("C04:first-offset", <<>>, lx3)
-                  ELSE IF svc = 82 /\ xi # {} /\ start # expected THEN SvcR("C04:read-offset", <<>>, lx3)
+                  ELSE IF svc = 82 /\ xi # {} /\ start # expected THEN SvcR("C04:read-offset+C01:value", <<>>, lx3)
                   ELSE SvcR("", MRReply(svc, IF more THEN 6 ELSE 0, <<>>, hdr \o chunk),
                             IF svc = 82 THEN (IF more THEN PutXfer(lx3, [path |-> rawpath, svc |-> 82, next |-> start + got, total |-> total, count |-> n])
                                               ELSE DropXfer(lx3, rawpath, 82))
@@ -217,7 +217,7 @@ TagService(lx0, svc, rawpath, segs, data, cap, choice, embedded) ==
              IN
              IF start + Len(val) > n * es THEN SvcR("", MRReply(svc, 21, <<>>, <<>>), LogSvc(lx1, r, svc, 21, <<>>))
              ELSE IF Len(val) = 0 THEN SvcR("", MRReply(svc, 19, <<>>, <<>>), LogSvc(lx1, r, svc, 19, <<>>))
-             ELSE IF start # expected \/ cnt # n THEN SvcR("C04:write-tiling", <<>>, lx1)
+             ELSE IF start # expected \/ cnt # n THEN SvcR("C04:write-tiling+C02:effect", <<>>, lx1)
              ELSE LET lx2 == [SetMem(lx1, r.key, Patch(mem, r.off + start, val)) EXCEPT !.ledger = Append(@, [key |-> r.key, off |-> r.off + start, len |-> Len(val), bit |-> -1])]
                       lx3 == IF start + Len(val) < n * es THEN PutXfer(lx2, [path |-> rawpath, svc |-> 83, next |-> start + Len(val), total |-> n * es, count |-> n])
                              ELSE DropXfer(lx2, rawpath, 83)
@@ -258,7 +258,7 @@ MultiService(lx, data, cap, choice) ==
     IF offs[1] # 2 + 2 * n \/ \E i \in 1..n : offs[i] >= offs[i + 1] THEN SvcR("C14:malformed-request", <<>>, lx)
     ELSE LET r == MultiFrom(lx, data, offs, 1, n, cap, 4 + 2 + 2 * n, choice) IN
          IF r.fail # "" THEN SvcR(r.fail, <<>>, r.lx)
-         ELSE IF r.used > cap THEN SvcR("C04:reply-too-large", <<>>, r.lx)
+         ELSE IF r.used > cap THEN SvcR("C04:reply-too-large+C01:falsy-for-existing", <<>>, r.lx)
          ELSE LET anyfail == \E i \in 1..n : r.replies[i][3] # 0
                   roffs == [i \in 1..n |-> 2 + 2 * n + FoldLeft(LAMBDA a, j : a + Len(r.replies[j]), 0, [j \in 1..(i - 1) |-> j])]
                   body == LE(n, 2) \o FlattenSeq([i \in 1..n |-> LE(roffs[i], 2)]) \o FlattenSeq(r.replies)
